@@ -4,12 +4,14 @@ use std::collections::{BTreeMap, HashSet};
 pub mod docs;
 pub mod hist;
 pub mod sched;
+pub mod reqs;
 
 pub fn get(id: &str) -> Option<Box<dyn Engine>> {
     match id {
         "C01" => Some(Box::new(docs::C01)),
         "C02" => Some(Box::new(docs::C02)),
         "C03" => Some(Box::new(docs::C03)),
+        "C12" => Some(Box::new(reqs::C12)),
         "C11" => Some(Box::new(sched::C11)),
         "C04" => Some(Box::new(hist::C04)),
         "C20" => Some(Box::new(hist::C20)),
